@@ -18,6 +18,7 @@ import (
 
 // PCmd is a command a node has received and not yet answered.
 type PCmd struct {
+	Auto bool // answered by the node itself as soon as it is the oldest unanswered command
 	Args []string
 	Name string
 	Fid  string
@@ -421,18 +422,17 @@ func (cl *Cluster) processLocked(nc *NodeConn) {
 			continue
 		case "cluster":
 			if cl.Boot || !cl.cfg.ScriptTopo {
+				// answered by the node itself, but in order: a real node serves one connection sequentially
 				nc.Data = true
-				s := cl.DefaultTopo()
-				if cl.TopoText != nil {
-					s = cl.TopoText()
-				}
-				nc.c.Write(respx.Bulk(s))
+				nc.Pending = append(nc.Pending, &PCmd{Args: args, Name: name, Raw: raw, Auto: true})
+				cl.autoLocked(nc)
 				continue
 			}
 		case "asking":
 			nc.Data = true
 			cl.log.Add(Event{Ev: "recv", N: nc.node.Name, Conn: nc.Id, K: name})
-			nc.c.Write([]byte("+OK\r\n"))
+			nc.Pending = append(nc.Pending, &PCmd{Args: args, Name: name, Raw: raw, Auto: true})
+			cl.autoLocked(nc)
 			continue
 		}
 		nc.Data = true
@@ -475,10 +475,28 @@ func (cl *Cluster) processLocked(nc *NodeConn) {
 	}
 }
 
+// autoLocked answers the self-answered commands (ASKING, CLUSTER NODES outside scripted-topology
+// mode) that have reached the head of the connection's queue.
+func (cl *Cluster) autoLocked(nc *NodeConn) {
+	for len(nc.Pending) > 0 && nc.Pending[0].Auto && !nc.Closed && !nc.PeerEOF {
+		pc := nc.Pending[0]
+		nc.Pending = nc.Pending[1:]
+		if pc.Name == "asking" {
+			nc.c.Write([]byte("+OK\r\n"))
+			continue
+		}
+		s := cl.DefaultTopo()
+		if cl.TopoText != nil {
+			s = cl.TopoText()
+		}
+		nc.c.Write(respx.Bulk(s))
+	}
+}
+
 // pickConn returns the open connection of the node with the oldest pending command.
 func (n *Node) pickConn() *NodeConn {
 	for _, nc := range n.Conns {
-		if !nc.Closed && !nc.PeerEOF && len(nc.Pending) > 0 {
+		if !nc.Closed && !nc.PeerEOF && len(nc.Pending) > 0 && !nc.Pending[0].Auto {
 			return nc
 		}
 	}
@@ -556,6 +574,7 @@ func (cl *Cluster) Answer(name, kind, cls, to string, raw []byte, part string) b
 				nc.c.Write(nc.rest)
 				nc.rest = nil
 				cl.log.Add(Event{Ev: "answerrest", N: n.Name, Conn: nc.Id})
+				cl.autoLocked(nc)
 				return true
 			}
 		}
@@ -636,6 +655,7 @@ func (cl *Cluster) answerLocked(nc *NodeConn, kind, cls, to string, raw []byte) 
 	// log before write: the answer happens-before anything the proxy does with it
 	cl.log.Add(ev)
 	nc.c.Write(b)
+	cl.autoLocked(nc)
 }
 
 // CloseConns closes (from the node side) every open data connection of the node.
